@@ -7,7 +7,7 @@ from typing import Any, Dict, List
 from mc.common import Acc
 from mc.dep_world import DepWorld
 from mc.recv_driver import replay as _replay
-from mc.recv_driver import run_scenarios
+from mc.recv_driver import mark_stateless, run_scenarios
 
 KINDS = [(st, cache) for st in ("plain", "aplain", "gen", "agen") for cache in (True, False)]
 
@@ -131,6 +131,8 @@ def scenarios(tier: str) -> List[Dict[str, Any]]:
 
 def shards(tier: str, seed: int) -> List[Any]:
     scs = scenarios(tier)
+    if tier == "thorough":
+        mark_stateless(scs, 2, 9)
     scs.sort(key=lambda s: (-s["level"], -len(s["msgs"])))
     big = [s for s in scs if s["level"] or len(s["msgs"]) > 2]
     small = [s for s in scs if not (s["level"] or len(s["msgs"]) > 2)]
